@@ -9,8 +9,14 @@ From Verif.model Require Import GenVal.
 Import ListNotations.
 Open Scope N_scope.
 
-Definition Eg (P : params) (r : N) : env := mkEnv P true true r.
-Definition Ev (P : params) (r : N) : env := mkEnv P true false r.
+Definition Eg (P : params) (c r : N) : env := mkEnv P true true r (eff_cap P c).
+Definition Ev (P : params) (r : N) : env := mkEnv P true false r (p_maxbytes P).
+
+Lemma eff_cap_le : forall P c, eff_cap P c <= p_maxbytes P.
+Proof.
+  intros P c. unfold eff_cap. destruct (c =? 0); cbn [orb]; [lia|].
+  destruct (p_maxbytes P <? c) eqn:E; [lia|]. apply N.ltb_ge in E. exact E.
+Qed.
 
 Tactic Notation "inv_bind" hyp(H) "as" simple_intropattern(p) :=
   match type of H with
@@ -54,12 +60,12 @@ Proof.
 Qed.
 
 (* generate mode computes the ApplyData that validate mode then accepts, reaching the same cow *)
-Lemma tx_gen_val : forall P r L parent c s c' s',
+Lemma tx_gen_val : forall P c0 r L parent c s c' s',
   p_applydata P = true ->
-  transaction (Eg P r) L parent c s = Ok (c', s') ->
+  transaction (Eg P c0 r) L parent c s = Ok (c', s') ->
   fst s' = fst s /\ transaction (Ev P r) L parent c s' = Ok (c', s').
 Proof.
-  intros P r L parent c [tx a] c' s' HA H. unfold transaction in *.
+  intros P c0 r L parent c [tx a] c' s' HA H. unfold transaction in *.
   cbn [fst snd Eg Ev e_validate e_generate e_P e_rnd negb andb orb] in *.
   inv_bind H as []. inv_bind H as [l1 ad']. cbn [bind] in H. inv_bind H as [].
   inversion H; subst. cbn [fst snd]. split; [reflexivity|].
@@ -67,21 +73,24 @@ Proof.
 Qed.
 
 (* ------------------------------------------------------------------ the group loop *)
-Lemma loop_gen_val : forall P r L parent bb txs c gb c' ss gb',
+Lemma loop_gen_val : forall P c0 r L parent bb txs c gb c' ss gb',
   p_applydata P = true ->
-  group_loop (Eg P r) L parent c bb gb txs = Ok (c', ss, gb') ->
+  group_loop (Eg P c0 r) L parent c bb gb txs = Ok (c', ss, gb') ->
   map fst ss = map fst txs /\ group_loop (Ev P r) L parent c bb gb ss = Ok (c', ss, gb').
 Proof.
-  intros P r L parent bb txs. induction txs as [|s txs IH]; intros c gb c' ss gb' HA H.
+  intros P c0 r L parent bb txs. induction txs as [|s txs IH]; intros c gb c' ss gb' HA H.
   - cbn in H. inversion H; subst. split; reflexivity.
   - cbn [group_loop] in H. inv_bind H as [c1 s1].
-    destruct (tx_gen_val _ _ _ _ _ _ _ _ HA Hb) as [Hf Hv].
-    cbn [Eg e_validate e_P] in H.
-    destruct (true && (p_maxbytes P <? bb + (gb + t_len (fst s)))) eqn:Hsp; [discriminate|].
+    destruct (tx_gen_val _ _ _ _ _ _ _ _ _ HA Hb) as [Hf Hv].
+    cbn [Eg e_validate e_P e_cap] in H.
+    destruct (true && (eff_cap P c0 <? bb + (gb + t_len (fst s)))) eqn:Hsp; [discriminate|].
     inv_bind H as [[c2 ss2] gb2]. inversion H; subst.
     destruct (IH _ _ _ _ _ HA Hb0) as [Hm Hl].
     split; [cbn; rewrite Hf, Hm; reflexivity|].
-    cbn [group_loop]. rewrite Hv. cbn [bind Ev e_validate e_P]. rewrite Hf, Hsp, Hl. reflexivity.
+    (* what fits under the node-local cap fits under the protocol's limit *)
+    assert (Hsp' : true && (p_maxbytes P <? bb + (gb + t_len (fst s))) = false).
+    { cbn [andb] in *. apply N.ltb_ge in Hsp. apply N.ltb_ge. pose proof (eff_cap_le P c0). lia. }
+    cbn [group_loop]. rewrite Hv. cbn [bind Ev e_validate e_P e_cap]. rewrite Hf, Hsp', Hl. reflexivity.
 Qed.
 
 Lemma loop_val_fixed : forall P r L parent bb txs c gb c' ss gb',
@@ -120,24 +129,24 @@ Qed.
 Definition same_txns (g g' : group) : Prop :=
   map fst (g_txns g) = map fst (g_txns g') /\ g_wf g = g_wf g' /\ g_gid g = g_gid g' /\ g_feeok g = g_feeok g'.
 
-Lemma group_gen_val : forall P r L ev g ev',
+Lemma group_gen_val : forall P c0 r L ev g ev',
   p_applydata P = true ->
-  transaction_group (Eg P r) L ev g = Ok ev' ->
+  transaction_group (Eg P c0 r) L ev g = Ok ev' ->
   (g_txns g = [] /\ ev' = ev) \/
   (exists g', same_txns g g' /\ ev_payset ev' = ev_payset ev ++ [g'] /\
               transaction_group (Ev P r) L ev g' = Ok ev').
 Proof.
-  intros P r L ev g ev' HA H. unfold transaction_group in H.
+  intros P c0 r L ev g ev' HA H. unfold transaction_group in H.
   destruct (g_txns g) as [|s0 txs0] eqn:Htx.
   - left. inversion H; auto.
   - right. rewrite <- Htx in H.
-    destruct (p_maxgroup (e_P (Eg P r)) <? N.of_nat (length (g_txns g))) eqn:Hsz; [discriminate|].
-    destruct (e_validate (Eg P r) && negb (g_wf g)) eqn:Hwf; [discriminate|].
+    destruct (p_maxgroup (e_P (Eg P c0 r)) <? N.of_nat (length (g_txns g))) eqn:Hsz; [discriminate|].
+    destruct (e_validate (Eg P c0 r) && negb (g_wf g)) eqn:Hwf; [discriminate|].
     inv_bind H as [[c ss] gb].
     destruct (negb (g_gid g)) eqn:Hg; [discriminate|].
     destruct (negb (g_feeok g)) eqn:Hf; [discriminate|].
     inversion H; subst ev'. clear H.
-    destruct (loop_gen_val _ _ _ _ _ _ _ _ _ _ _ HA Hb) as [Hm Hl].
+    destruct (loop_gen_val _ _ _ _ _ _ _ _ _ _ _ _ HA Hb) as [Hm Hl].
     exists (mkGroup ss (g_wf g) (g_gid g) (g_feeok g)). cbn [ev_payset].
     split; [unfold same_txns; cbn; auto|]. split; [reflexivity|].
     unfold transaction_group. cbn [g_txns g_wf g_gid g_feeok].
@@ -164,15 +173,15 @@ Proof.
 Qed.
 
 (* ------------------------------------------------------------------ pools and blocks *)
-Lemma gen_run : forall P r L pool ev,
+Lemma gen_run : forall P c0 r L pool ev,
   p_applydata P = true ->
-  exists gs, ev_payset (gen_groups (Eg P r) L ev pool) = ev_payset ev ++ gs /\
-             run_groups (Ev P r) L ev gs = Ok (gen_groups (Eg P r) L ev pool).
+  exists gs, ev_payset (gen_groups (Eg P c0 r) L ev pool) = ev_payset ev ++ gs /\
+             run_groups (Ev P r) L ev gs = Ok (gen_groups (Eg P c0 r) L ev pool).
 Proof.
-  intros P r L pool. induction pool as [|g pool IH]; intros ev HA.
+  intros P c0 r L pool. induction pool as [|g pool IH]; intros ev HA.
   - exists []. cbn. rewrite app_nil_r. auto.
-  - cbn [gen_groups]. destruct (transaction_group (Eg P r) L ev g) as [ev1|e] eqn:Hg.
-    + destruct (group_gen_val _ _ _ _ _ _ HA Hg) as [[_ ->]|(g' & _ & Hp & Hv)]; [apply IH; assumption|].
+  - cbn [gen_groups]. destruct (transaction_group (Eg P c0 r) L ev g) as [ev1|e] eqn:Hg.
+    + destruct (group_gen_val _ _ _ _ _ _ _ HA Hg) as [[_ ->]|(g' & _ & Hp & Hv)]; [apply IH; assumption|].
       destruct (IH ev1 HA) as (gs & Hps & Hr). exists (g' :: gs). split.
       * rewrite Hps, Hp, <- app_assoc. reflexivity.
       * cbn [run_groups]. rewrite Hv. cbn [bind]. exact Hr.
@@ -225,15 +234,15 @@ Proof.
 Qed.
 
 (* ------------------------------------------------------------------ StartEvaluator *)
-Lemma start_gen : forall P r b L hdr1 l0,
-  start (Eg P r) L (hdr_template r b) = Ok (hdr1, l0) ->
+Lemma start_gen : forall P c0 r b L hdr1 l0,
+  start (Eg P c0 r) L (hdr_template r b) = Ok (hdr1, l0) ->
   hdr1 = set_start (hdr_template r b) (if p_genhash P then lv_genhash L else 0) (lv_nextrs L) /\
   l0 = put layer0 (lv_pool L) (base_lookup L (lv_pool L)) /\
   forall h, h_round h = r -> h_bonus h = b -> h_genhash h = h_genhash hdr1 -> h_rs h = h_rs hdr1 ->
             (p_loadtracking P = false -> h_load h = 0) ->
             start (Ev P r) L h = Ok (h, l0).
 Proof.
-  intros P r b L hdr1 l0 H. unfold start in H. cbn [Eg e_P e_generate e_validate hdr_template h_round h_genhash] in H.
+  intros P c0 r b L hdr1 l0 H. unfold start in H. cbn [Eg e_P e_generate e_validate hdr_template h_round h_genhash] in H.
   destruct (r =? 0) eqn:Hr0; [discriminate|].
   set (h1 := set_start _ _ _) in H.
   inv_bind H as [].
